@@ -40,6 +40,11 @@ func FuzzBuild(f *testing.F) {
 	f.Add([]byte("class A { int f(int a){ if (a > 0) { return a + 1; } assert a >= 0 : \"m\"; return switch (a) { default -> { yield 1; } }; } }"))
 	f.Add([]byte("/** @author x */ @Deprecated public class B extends C implements D, E { private int x = new F(1, \"s\").g(); }"))
 	f.Fuzz(func(t *testing.T, src []byte) {
+		// (same watchdog: tree-sitter's error recovery is quadratic on some malformed inputs — 6 s for 70 KB of
+		// unterminated literals; the scaling families of checks/c09.py measure growth, this target looks for panics)
+		if len(src) > 16384 {
+			t.Skip()
+		}
 		r := handle(&Req{Op: "build", Hex: hexOf(src), File: "F.java", NoNodes: true})
 		if r["outcome"] != "ok" {
 			t.Fatalf("outcome %v: %v", r["outcome"], r["panic"])
